@@ -52,4 +52,5 @@ for i in ids:
     v = sorted({re.sub(r".*replays/[^/]*/", "", l).split(".json")[0][-90:] for l in p.stdout.split("\n") if l.startswith("VIOLATION")})
     u = [l[:160] for l in p.stdout.split("\n") if l.startswith("UNDECIDED")]
     print(kind, i, "rc=%d" % p.returncode, "; ".join(v[:4]), " | ".join(u[:3])); sys.stdout.flush()
-subprocess.run(["git", "-C", WT, "checkout", "-q", "--", "."])
+if not os.environ.get("BENIGN_KEEP"):
+    subprocess.run(["git", "-C", WT, "checkout", "-q", "--", "."])
